@@ -82,6 +82,9 @@ def run_cli(argv, cwd=None):
         except Exception as e:  # noqa
             obs = classify(e)
             status = -1
+            if obs['end'] == 'internal':
+                import traceback
+                obs['tb'] = ''.join(traceback.format_exc().splitlines(True)[-8:])
     finally:
         out = sys.stdout.getvalue()
         sys.stdout, sys.stderr = old_out, old_err
